@@ -5,6 +5,8 @@
 //   c16 delaunay <seed> <n> <outbase>
 //   c16 cdt      <seed> <n> <outbase>
 //   c16 voronoi  <seed> <n> <outbase>
+//   c16 predicates <seed> <n> <outbase>   the geometric decision functions themselves (TrianglePredicate, Vertex::isCCW/rightOf/leftOf/
+//                  isInCircle) on small-integer quadruples, where double arithmetic is exact: PR <8 hex doubles>  ->  7 integers (robust normalized nonrobust isCCW rightOf leftOf isInCircle)
 //   c16 replay   <file>          re-run the implementation on the input part of each case line, print fresh case lines
 //   c16 incircle ax ay bx by cx cy dx dy | incirclef <file>   the implementation's in-circle predicate on hex doubles
 //   c16 sites    <tolhex> x y x y ...   (decimal integers) convenience: print a delaunay case line
@@ -16,6 +18,10 @@
 #include "gtree.h"
 #include <geos_c.h>
 #include <geos/triangulate/quadedge/TrianglePredicate.h>
+#include <geos/triangulate/quadedge/Vertex.h>
+#include <geos/triangulate/quadedge/QuadEdge.h>
+#include <geos/triangulate/quadedge/QuadEdgeQuartet.h>
+#include <deque>
 #include <geos/triangulate/DelaunayTriangulationBuilder.h>
 #include <geos/triangulate/VoronoiDiagramBuilder.h>
 #include <geos/geom/GeometryCollection.h>
@@ -359,6 +365,23 @@ static std::string polyToks(const Poly& po, int k) {
     return s;
 }
 
+// ------------------------------------------------------------------ the decision functions themselves (stream `predicates`)
+// isInCircleRobust isInCircleNormalized isInCircleNonRobust Vertex::isCCW rightOf leftOf isInCircle on the points a b c d = v[0..7]
+static std::string evalPredicates(const double* v, int& rob) {
+    using geos::triangulate::quadedge::TrianglePredicate; using geos::triangulate::quadedge::Vertex;
+    using geos::triangulate::quadedge::QuadEdge; using geos::triangulate::quadedge::QuadEdgeQuartet; using geos::geom::CoordinateXY;
+    CoordinateXY a(v[0], v[1]), b(v[2], v[3]), c(v[4], v[5]), d(v[6], v[7]);
+    rob = (int) TrianglePredicate::isInCircleRobust(a, b, c, d);
+    int nor = (int) TrianglePredicate::isInCircleNormalized(a, b, c, d);
+    int non = (int) TrianglePredicate::isInCircleNonRobust(a, b, c, d);
+    // (TrianglePredicate::triArea is private and has no caller; Vertex::isCCW evaluates the same determinant)
+    Vertex va(v[0], v[1]), vb(v[2], v[3]), vc(v[4], v[5]), vd(v[6], v[7]);
+    std::deque<QuadEdgeQuartet> qs; QuadEdge* e = QuadEdge::makeEdge(vb, vc, qs);
+    int ccw = va.isCCW(vb, vc) ? 1 : 0, ro = va.rightOf(*e) ? 1 : 0, lo = va.leftOf(*e) ? 1 : 0, vin = vd.isInCircle(va, vb, vc) ? 1 : 0;
+    return std::to_string(rob) + " " + std::to_string(nor) + " " + std::to_string(non) + " " + std::to_string(ccw) + " " + std::to_string(ro) + " " +
+           std::to_string(lo) + " " + std::to_string(vin);
+}
+
 // ------------------------------------------------------------------ main
 int main(int argc, char** argv) {
     if (argc < 3) { fprintf(stderr, "usage: c16 <stream> <seed> <n> <outbase> | c16 replay <file> | c16 sites <tolhex> x y ...\n"); return 2; }
@@ -383,6 +406,13 @@ int main(int argc, char** argv) {
             std::cout << (int) TrianglePredicate::isInCircleRobust(CoordinateXY(v[0], v[1]), CoordinateXY(v[2], v[3]), CoordinateXY(v[4], v[5]), CoordinateXY(v[6], v[7])) << "\n"; }
         GEOS_finish_r(H); return 0;
     }
+    if (stream == "predicates-eval") {   // c16 predicates-eval <file>: `PR <8 hex doubles>` per line -> the implementation's seven answers per line
+        std::ifstream f(argv[2]); std::string line;
+        while (std::getline(f, line)) { auto t = splitToks(line); if (t.size() < 9 || t[0] != "PR") { std::cout << "bad-line\n"; continue; }
+            double v[8]; for (int i = 0; i < 8; i++) v[i] = frombits(std::stoull(t[1 + i], nullptr, 16));
+            int rob; std::cout << evalPredicates(v, rob) << "\n"; }
+        GEOS_finish_r(H); return 0;
+    }
     if (stream == "sites") {
         double tol = frombits(std::stoull(argv[2], nullptr, 16)); std::vector<P> pts;
         for (int i = 3; i + 1 < argc; i += 2) pts.push_back(P{std::stoll(argv[i]), std::stoll(argv[i + 1])});
@@ -391,6 +421,38 @@ int main(int argc, char** argv) {
     if (argc < 5) { fprintf(stderr, "usage\n"); return 2; }
     uint64_t seed = std::stoull(argv[2]); long n = std::stol(argv[3]); Out out(argv[4]); Rng r(seed);
     static const double TOLS[] = {0.25, 0.5, 1.0, 1.5, 3.0, 10.0};
+    if (stream == "predicates") {
+        // The functions the translator tie regenerates (translate/specs/tri_predicates.py), called directly.  Ordinates are integers
+        // of magnitude <= 1000 times 2^k: every product and sum of the determinants is exact in double (and long double), and the
+        // error bound of isInCircleRobust stays below 1 unit of the (integer) determinant, so the answers must equal the exact model.
+        for (long i = 0; i < n; i++) {
+            P q[4]; int cls = (int) r.below(6);
+            i64 M = r.chance(50) ? 12 : 1000;
+            for (auto& p : q) p = P{(i64) r.below(2 * M + 1) - M, (i64) r.below(2 * M + 1) - M};
+            if (cls == 1) {           // cocircular: four points of a lattice circle (x,y) -> (+-x,+-y),(+-y,+-x) about a centre
+                i64 u = 1 + (i64) r.below(M / 3), v = (i64) r.below(M / 3), cx = (i64) r.below(M / 3), cy = (i64) r.below(M / 3);
+                P c8[8] = {{u, v}, {-v, u}, {-u, -v}, {v, -u}, {v, u}, {-u, v}, {-v, -u}, {u, -v}};
+                for (int j = 0; j < 4; j++) { P t = c8[(r.below(8) + 0) % 8]; q[j] = P{cx + t.x, cy + t.y}; }
+            } else if (cls == 2) {    // fourth point one unit off the circle through a lattice right triangle
+                q[0] = P{0, 0}; q[1] = P{(i64) (1 + r.below(M / 2)), 0}; q[2] = P{0, (i64) (1 + r.below(M / 2))};
+                q[3] = P{q[1].x + (i64) r.below(3) - 1, q[2].y + (i64) r.below(3) - 1};
+            } else if (cls == 3) {    // collinear triple
+                i64 dx = (i64) r.below(M / 2 + 1) - M / 4, dy = (i64) r.below(M / 2 + 1) - M / 4;
+                q[0] = P{q[0].x / 2, q[0].y / 2}; q[1] = P{q[0].x + dx, q[0].y + dy}; q[2] = P{q[0].x + 2 * dx, q[0].y + 2 * dy};
+            } else if (cls == 4) {    // repeated point
+                q[r.below(4)] = q[r.below(4)];
+            }
+            static const char* CN[] = {"random", "cocircular", "near-circle", "collinear", "repeated", "random"};
+            out.count(std::string("class_") + CN[cls]);
+            int k = r.chance(30) ? (int) r.below(41) - 20 : 0;
+            double v[8]; for (int j = 0; j < 4; j++) { v[2 * j] = std::ldexp((double) q[j].x, k); v[2 * j + 1] = std::ldexp((double) q[j].y, k); }
+            int rob = 1; std::string ans = evalPredicates(v, rob);
+            out.count(std::string("robust_") + (rob == 0 ? "interior" : rob == 1 ? "boundary" : "exterior"));
+            std::string cs = "PR"; for (double x : v) cs += " " + hex(x);
+            out.emit(cs, ans);
+        }
+        GEOS_finish_r(H); return 0;
+    }
     if (stream == "delaunay") {
         for (long i = 0; i < n; i++) {
             SiteCase sc = genSites(r, out, true);
